@@ -55,9 +55,10 @@ Fixpoint only_d13 (progs : list (list call)) (spec impl : list (list Z)) : bool 
 (* 0 ok
    1 implementation = sequential values, but the model predicted something else (model unfaithful)
    2 implementation differs from the sequential values in a way the model does not predict
-   3 implementation differs from the sequential values exactly as the model predicts: finding D13
+   3 implementation differs from the sequential values exactly as the model predicts: the deque race
+     (only possible when the generated configuration says a lookup loop iterates the deque itself)
    4 an operand's bytes changed
-   5 implementation deviates only by deque-race RuntimeErrors (D13) but not where the model predicts *)
+   5 implementation deviates only by deque-race RuntimeErrors but not where the model predicts *)
 Definition judge_sched (c : sched_case) : Z :=
   let '(_, _, progs, _, impl, same) := c in
   let spec := spec_outcomes c in
